@@ -33,6 +33,8 @@ type Verifier struct {
 	axioms    []*boundAxiom
 	lemmas    []*boundLemma
 	purePats  []string
+	sentinels []*sentinel
+	loadNotes []string
 	loadErrs  []string
 	tmpdir    string
 	timeoutMs int
@@ -101,6 +103,7 @@ func loadVerifier(repo string, specDir string) (*Verifier, error) {
 			}
 		}
 	}
+	v.collectSentinels()
 	specs, _ := filepath.Glob(filepath.Join(specDir, "*.spec"))
 	sort.Strings(specs)
 	for _, f := range specs {
@@ -132,6 +135,7 @@ func (v *Verifier) addFile(cf *ContractFile, pkg *types.Package) error {
 		v.ghosts[g.Name] = g
 	}
 	for _, s := range cf.Specs {
+		s.Pkg = pkg
 		v.specs[s.Name] = s
 	}
 	for _, a := range cf.Axioms {
@@ -363,6 +367,7 @@ func (v *Verifier) isPureIface(m *types.Func) bool {
 }
 
 func (v *Verifier) assumeGlobalAxioms(c *Ctx, st *State, guard *Term) {
+	v.assumeSentinels(c, st, guard)
 	for _, a := range v.axioms {
 		env := newEnv(c, a.Pkg)
 		env.st = st
